@@ -109,6 +109,22 @@ def one_history(ctx, hist_no, steps):
         return (index[id(e.source)], index[id(e.target)], lab_s(e.label))
 
     for step in range(steps):
+        if rng.random() < 0.05 and all(a < 4 and b < 4 for a, b, _ in ref):
+            # the CFG of a LOADED IR: save + load, then the history goes on
+            # with the loaded objects (same set of edges; labels None vs
+            # all-false, parallel edges and self-loops come back from a file)
+            import msg_stream as ms
+            try:
+                with core.time_limit(30):
+                    ir2 = ms.load(gtirb, ms.save(ir))
+                by = {n.uuid: n for n in ir2.cfg_nodes}
+                nodes[:4] = [by[n.uuid] for n in nodes[:4]]
+                ir, cfg = ir2, ir2.cfg
+                index = {id(n): i for i, n in enumerate(nodes)}
+                script.append("reload")
+                ctx.count("op:reload")
+            except (Exception, core.ImplTimeout) as ex:   # noqa (C01 / C17)
+                ctx.count("op:reload-failed:" + type(ex).__name__)
         op = rng.choice(OPS)
         before = len(ref)
         exc = None
